@@ -31,3 +31,15 @@ Theorem C09_mul_a1_step cfg s w s1 :
   pc_of (AdvancePC (it_step_after s1 s2)) = add32 (pc_of s1) (opcode_len s1 / 8).
 Proof. exact (mul_a1_step cfg s w s1). Qed.
 Print Assumptions C09_mul_a1_step.
+
+(* CLZ<c> Rd, Rm (ARM A1): cond != 1111, 0001 0110 (1111) Rd (1111) 0001 Rm, Rd and Rm in r0-r12 and different *)
+Theorem C09_clz_a1_step cfg s w s1 :
+  ArmV6_fetch_instruction cfg s = Ok w s1 ->
+  0 <= w < 2 ^ 32 -> is_clz_a1 w -> iset_of s1 = 0 -> ictx cfg s1 -> cond_holds s1 ->
+  let d := bits w 15 12 in let m := bits w 3 0 in
+  let op := (code_Clz, [w; m; d]) in
+  let s2 := CLZ_sem (begin_instr s1 op) m d in
+  ArmV6_emulate_cycle cfg s = Ok tt (AdvancePC (it_step_after s1 s2)) /\
+  pc_of (AdvancePC (it_step_after s1 s2)) = add32 (pc_of s1) (opcode_len s1 / 8).
+Proof. exact (clz_a1_step cfg s w s1). Qed.
+Print Assumptions C09_clz_a1_step.
